@@ -11,22 +11,30 @@
    first, a failing put happens after that); the theorems below are UNGUARDED: they hold for every key, every data
    value and every operation sequence.
 
-   [rt] is what hdf.load gives back for a stored content (json.load o json.dumps; read_hdf under the artifact's
-   filter terms) - every theorem holds for every such function.                                                   *)
+   [rt] is what the UNFILTERED hdf.load gives back for a stored content (json.load o json.dumps; read_hdf); [view f]
+   is what a handle opened with filter [f] (row terms + draw column filter) makes of a table content - every theorem
+   holds for all such functions.  [Reopen f] opens a new handle with filter [f] on the same file: a history may switch
+   between differently filtered handles at will.  [abs] is the content as an unfiltered reader sees it.        *)
 From Viv Require Import Common Artifact ArtifactProofs.
 Local Open Scope Z_scope.
 
 Section C19.
 Variable rt : bool -> Z -> Z.
+Variable view : Z -> Z -> Z.
+Notation Inv := (Inv rt view).
+Notation step := (step rt view).
+Notation run := (run rt view).
+Notation load := (load rt view).
+Notation outs := (outs rt view).
 
 (* The invariant: the open object's key list = the persisted key list, duplicate-free, all keys well formed, no key a
    dotted prefix of another, = the reserved key + exactly the nodes of the file (no orphan nodes), and every cached
    value is what the file holds.  It holds initially and is preserved by EVERY operation - accepted or rejected -
    hence holds after every operation sequence. *)
-Theorem C19_inv : Inv rt init /\ (forall s o, Inv rt s -> Inv rt (fst (step rt s o))) /\
-                  forall ops, Inv rt (run rt init ops).
+Theorem C19_inv : Inv init /\ (forall s o, Inv s -> Inv (fst (step s o))) /\
+                  forall ops, Inv (run init ops).
 Proof.
-  split; [apply inv_init|]. split; [exact (step_inv rt)|]. intros ops. apply run_inv. apply inv_init.
+  split; [apply inv_init|]. split; [exact (step_inv rt view)|]. intros ops. apply run_inv. apply inv_init.
 Qed.
 
 (* Refinement: after ANY operation sequence the artifact holds, under every key, exactly what the plain finite map
@@ -35,34 +43,54 @@ Qed.
    stored; everything else - and every operation that is not accepted - the identity), and the next operation is
    rejected exactly when the map operation is not applicable. *)
 Theorem C19_refines_map : forall ops,
-  (forall k, abs rt (run rt init ops) k = find k (spec_run rt [] ops)) /\
-  (forall o, is_rej (snd (step rt (run rt init ops) o)) = negb (snd (spec_step rt (spec_run rt [] ops) o))).
+  (forall k, find k (file_of (run init ops)) = find k (spec_run [] ops)) /\
+  (forall k, abs rt (run init ops) k = option_map (back rt) (find k (spec_run [] ops))) /\
+  (forall o, is_rej (snd (step (run init ops) o)) = negb (snd (spec_step (spec_run [] ops) o))).
 Proof.
-  intros ops. pose proof (run_refines rt ops init [] (inv_init rt) (R_init rt)) as HR. split; [exact HR|].
-  intros o. apply (step_refines rt _ _ o (run_inv rt ops init (inv_init rt)) HR).
+  intros ops. pose proof (run_refines rt view ops init [] (inv_init rt view) (fun k => eq_refl)) as HR.
+  split; [exact HR|]. split; [apply (R_abs rt _ _ HR)|].
+  intros o. apply (step_refines rt view _ _ o (run_inv rt view ops init (inv_init rt view)) HR).
 Qed.
+
+(* The handles' filters never reach the file: two histories that differ only in the filters their artifacts were opened
+   with leave the same stored content under every key, the same key set, and accept / reject the same next operation.
+   Together with C19_refines_map: no operation through a filtered handle changes the unfiltered content except by the
+   data it was given; with C19_rejected_unchanged: a rejected operation through any handle leaves it as it was. *)
+Theorem C19_filters_never_reach_the_file : forall ops ops', map erase ops = map erase ops' ->
+  (forall k, find k (file_of (run init ops)) = find k (file_of (run init ops'))) /\
+  (forall k, In k (keys (run init ops)) <-> In k (keys (run init ops'))) /\
+  (forall o, is_rej (snd (step (run init ops) o)) = is_rej (snd (step (run init ops') o))).
+Proof. exact (filter_independent rt view). Qed.
 
 (* ... hence the keys the artifact reports are exactly the keys that can be loaded (= reserved key + domain of the map),
    they are what a freshly opened artifact on the same file reports, and loading returns the map's value. *)
 Theorem C19_keys_loadable_reopen : forall ops,
-  let s := run rt init ops in
+  let s := run init ops in
   (forall k, In k (keys s) <-> k = ks_key \/ abs rt s k <> None) /\
-  (forall k, In k (keys s) <-> is_rej (snd (load rt s k)) = false) /\
-  keys (fst (step rt s Reopen)) = keys s /\
-  (forall k v, k <> ks_key -> (snd (load rt s k) = Loaded v <-> abs rt s k = Some v)).
+  (forall k, In k (keys s) <-> is_rej (snd (load s k)) = false) /\
+  (forall f, keys (fst (step s (Reopen f))) = keys s) /\
+  (* a load through the handle returns the stored content seen through the handle's filter; the content itself is whole *)
+  (forall k v, k <> ks_key ->
+     (snd (load s k) = Loaded v <->
+      exists n, find k (file_of s) = Some n /\ v = seen rt view (filt s) n /\ abs rt s k = Some (back rt n))).
 Proof. intros ops. apply keys_loadable_reopen. apply run_inv. apply inv_init. Qed.
 
 (* Loading a key returns the roundtrip of the data last written under it: after an accepted write / replace of [d]
    under [k] and ANY further operations none of which writes, removes or replaces [k] *)
 Theorem C19_load_last_written : forall pre o0 k d n post,
   (o0 = Write k d \/ o0 = Replace k d) -> node_of d = Some n ->
-  snd (step rt (run rt init pre) o0) = Done -> (forall o, In o post -> touches k o = false) ->
-  snd (step rt (run rt init (pre ++ o0 :: post)) (Load k)) = Loaded (back rt n).
+  snd (step (run init pre) o0) = Done -> (forall o, In o post -> touches k o = false) ->
+  let s := run init (pre ++ o0 :: post) in
+  find k (file_of s) = Some n /\                                      (* the file holds exactly what was given ... *)
+  abs rt s k = Some (back rt n) /\                                     (* ... an unfiltered reader gets its roundtrip ... *)
+  snd (step s (Load k)) = Loaded (seen rt view (filt s) n).            (* ... the handle gets it through its filter *)
 Proof.
   intros pre o0 k d n post Ho Hn Hd Hp.
-  assert (Happ : forall a b s, run rt s (a ++ b) = run rt (run rt s a) b).
+  assert (Happ : forall a b s, run s (a ++ b) = run (run s a) b).
   { induction a as [|x a IH]; intros b s; simpl; [reflexivity | apply IH]. }
-  rewrite Happ. apply (load_last_written rt _ o0 k d n post); try assumption. apply run_inv. apply inv_init.
+  cbv zeta. rewrite Happ.
+  destruct (load_last_written rt view (run init pre) o0 k d n post (run_inv rt view pre init (inv_init rt view)) Ho Hn Hd Hp) as [H1 H2].
+  split; [exact H1|]. split; [unfold abs; now rewrite H1 | exact H2].
 Qed.
 
 (* An operation the artifact rejects - whatever the reason - leaves the artifact as it was: the same key list, the
@@ -70,44 +98,44 @@ Qed.
    cache state unless it is a replace whose data turned out unstorable only inside HDFStore.put (then the old node has
    been rewritten and the key's cache entry dropped); and in every case NO later operation sequence can tell that the
    rejected operation was attempted.  (was refuted before commits 18714332, f8d5c251, 4cf26c03, 29349355) *)
-Theorem C19_rejected_unchanged : forall s o e, Inv rt s -> snd (step rt s o) = Rej e ->
-  (sim s (fst (step rt s o)) /\
-   (forall k i, find k (cache (fst (step rt s o))) = Some i -> find k (cache s) = Some i) /\
-   (bad_replace o = false -> fst (step rt s o) = s)) /\
-  forall ops, outs rt (fst (step rt s o)) ops = outs rt s ops.
+Theorem C19_rejected_unchanged : forall s o e, Inv s -> snd (step s o) = Rej e ->
+  (sim s (fst (step s o)) /\
+   (forall k i, find k (cache (fst (step s o))) = Some i -> find k (cache s) = Some i) /\
+   (bad_replace o = false -> fst (step s o) = s)) /\
+  forall ops, outs (fst (step s o)) ops = outs s ops.
 Proof.
-  intros s o e I H. split; [apply (rejected_unchanged rt s o e I H) | intros ops; apply (rejected_indistinguishable rt s o e ops I H)].
+  intros s o e I H. split; [apply (rejected_unchanged rt view s o e I H) | intros ops; apply (rejected_indistinguishable rt view s o e ops I H)].
 Qed.
 
 (* ... and the reasons the property lists are indeed rejected (in every reachable state) *)
-Theorem C19_listed_rejections : forall s k d, Inv rt s ->
-  (In k (keys s) -> is_rej (snd (step rt s (Write k d))) = true) /\
-  (~ In k (keys s) -> is_rej (snd (step rt s (Remove k))) = true /\ is_rej (snd (step rt s (Replace k d))) = true /\
-                      is_rej (snd (step rt s (Load k))) = true) /\
+Theorem C19_listed_rejections : forall s k d, Inv s ->
+  (In k (keys s) -> is_rej (snd (step s (Write k d))) = true) /\
+  (~ In k (keys s) -> is_rej (snd (step s (Remove k))) = true /\ is_rej (snd (step s (Replace k d))) = true /\
+                      is_rej (snd (step s (Load k))) = true) /\
   (node_of d = None (* None, unserialisable, unstorable *) ->
-     is_rej (snd (step rt s (Write k d))) = true /\ is_rej (snd (step rt s (Replace k d))) = true) /\
-  (valid_key k = false -> is_rej (snd (step rt s (Write k d))) = true) /\
-  (forall k', In k' (keys s) -> overlaps k k' = true -> is_rej (snd (step rt s (Write k d))) = true) /\
-  is_rej (snd (step rt s (Remove ks_key))) = true.
+     is_rej (snd (step s (Write k d))) = true /\ is_rej (snd (step s (Replace k d))) = true) /\
+  (valid_key k = false -> is_rej (snd (step s (Write k d))) = true) /\
+  (forall k', In k' (keys s) -> overlaps k k' = true -> is_rej (snd (step s (Write k d))) = true) /\
+  is_rej (snd (step s (Remove ks_key))) = true.
 Proof.
   intros s k d I. simpl. repeat split.
   - intros H. now rewrite (duplicate_write_rejected s k d H).
-  - destruct (missing_rejected rt s k d H) as [H1 _]. now rewrite H1.
-  - destruct (missing_rejected rt s k d H) as [_ [H1 _]]. now rewrite H1.
-  - destruct (missing_rejected rt s k d H) as [_ [_ H1]]. now rewrite H1.
-  - apply (not_storable_rejected rt s k d I H).
-  - apply (not_storable_rejected rt s k d I H).
-  - intros H. apply (malformed_key_rejected rt s k d I H).
+  - destruct (missing_rejected rt view s k d H) as [H1 _]. now rewrite H1.
+  - destruct (missing_rejected rt view s k d H) as [_ [H1 _]]. now rewrite H1.
+  - destruct (missing_rejected rt view s k d H) as [_ [_ H1]]. now rewrite H1.
+  - apply (not_storable_rejected rt view s k d I H).
+  - apply (not_storable_rejected rt view s k d I H).
+  - intros H. apply (malformed_key_rejected rt view s k d I H).
   - intros k' Hk Ho. apply (overlapping_key_rejected s k d k' Hk Ho).
-  - now rewrite (reserved_remove_rejected rt s I).
+  - now rewrite (reserved_remove_rejected rt view s I).
 Qed.
 
 (* Clearing the cache and re-opening the file change neither the keys nor any content, and no later operation
    sequence can tell the difference (same outcomes, same loaded values). *)
-Theorem C19_clear_reopen_neutral : forall s o ops, Inv rt s -> (o = ClearCache \/ o = Reopen) ->
-  (forall k, abs rt (fst (step rt s o)) k = abs rt s k) /\ keys (fst (step rt s o)) = keys s /\
-  outs rt (fst (step rt s o)) ops = outs rt s ops.
-Proof. exact (clear_reopen_neutral rt). Qed.
+Theorem C19_clear_reopen_neutral : forall s o ops, Inv s -> (o = ClearCache \/ o = Reopen (filt s)) ->
+  (forall k, abs rt (fst (step s o)) k = abs rt s k) /\ keys (fst (step s o)) = keys s /\
+  outs (fst (step s o)) ops = outs s ops.
+Proof. exact (clear_reopen_neutral rt view). Qed.
 
 End C19.
 
@@ -142,6 +170,8 @@ Qed.
 (* ---- non-vacuity: a history with accepted and rejected operations of every kind ends in the expected state, with the
    expected outcomes; the two repaired defect classes are exercised (overlapping keys, put-failing frame) ---- *)
 Definition rt_id (b : bool) (i : Z) : Z := i.
+(* filter 7 keeps half of every table (content i -> 1000 + i), filter 0 and all others nothing special *)
+Definition view_demo (f i : Z) : Z := if f =? 7 then 1000 + i else i.
 Definition demo_ops : list op :=
   [Write [5; 6] (DFrame 10); Write [5; 7; 8] (DJson 11); Write [5; 6] (DJson 12) (* duplicate *);
    Load [5; 6]; Replace [5; 6] DNone (* rejected *); Replace [5; 6] DUnwritable (* rejected *);
@@ -149,22 +179,30 @@ Definition demo_ops : list op :=
    Write [5; 6; 9] (DJson 14) (* extends 5.6 *); Write [5; 7] (DFrame 15) (* prefix of 5.7.8 *);
    Write [1; 2; 3] (DJson 1) (* below the reserved node *);
    Replace [5; 6] DBadFrame (* rejected, restored *); Load [5; 6]; Write [7; 7] DBadFrame (* rejected *);
-   Replace [5; 6] (DJson 13); ClearCache; Load [5; 6]; Remove [5; 7; 8]; Reopen; Load [5; 7; 8] (* missing *)].
-Example demo_outs : map is_rej (outs rt_id init demo_ops) =
+   Replace [5; 6] (DJson 13); ClearCache; Load [5; 6]; Remove [5; 7; 8]; Reopen 0; Load [5; 7; 8] (* missing *)].
+Example demo_outs : map is_rej (outs rt_id view_demo init demo_ops) =
   [false; false; true; false; true; true; true; true; true; true; true; true; true; false; true;
    false; false; false; false; false; true].
 Proof. vm_compute. reflexivity. Qed.
 Example demo_final :
-  let s := run rt_id init demo_ops in
+  let s := run rt_id view_demo init demo_ops in
   keys s = [ks_key; [5; 6]] /\ keyspace s = keys s /\ file_of s = [([5; 6], NJson 13)] /\
-  snd (step rt_id s (Load [5; 6])) = Loaded 13 /\ spec_run rt_id [] demo_ops = [([5; 6], 13)].
+  snd (step rt_id view_demo s (Load [5; 6])) = Loaded 13 /\ spec_run [] demo_ops = [([5; 6], NJson 13)].
 Proof. vm_compute. auto. Qed.
 (* a rejected replace with a put-failing frame: same keys in the same order, same content, cache entry dropped *)
 Example demo_restore :
-  let s := run rt_id init [Write [5; 6] (DFrame 10); Write [5; 7] (DJson 11); Load [5; 6]] in
-  let s' := fst (step rt_id s (Replace [5; 6] DBadFrame)) in
+  let s := run rt_id view_demo init [Write [5; 6] (DFrame 10); Write [5; 7] (DJson 11); Load [5; 6]] in
+  let s' := fst (step rt_id view_demo s (Replace [5; 6] DBadFrame)) in
   keys s' = keys s /\ keyspace s' = keyspace s /\ abs rt_id s' [5; 6] = Some 10 /\ abs rt_id s' [5; 7] = Some 11 /\
-  cache s = [([5; 6], 10)] /\ cache s' = [] /\ snd (step rt_id s' (Load [5; 6])) = Loaded 10.
+  cache s = [([5; 6], 10)] /\ cache s' = [] /\ snd (step rt_id view_demo s' (Load [5; 6])) = Loaded 10.
+Proof. vm_compute. repeat split; reflexivity. Qed.
+(* a handle with a restricting filter: loads are filtered, the file is not - not even by a replace that is refused inside
+   HDFStore.put and restored (the roll-back copy is read unfiltered), nor by clear_cache / replace with good data *)
+Example demo_filtered_handle :
+  let s := run rt_id view_demo init [Write [5; 6] (DFrame 10); Reopen 7; Load [5; 6]; Replace [5; 6] DBadFrame; ClearCache] in
+  snd (step rt_id view_demo s (Load [5; 6])) = Loaded 1010 /\ abs rt_id s [5; 6] = Some 10 /\
+  abs rt_id (fst (step rt_id view_demo s (Replace [5; 6] (DFrame 20)))) [5; 6] = Some 20 /\
+  snd (step rt_id view_demo (fst (step rt_id view_demo s (Reopen 0))) (Load [5; 6])) = Loaded 10.
 Proof. vm_compute. repeat split; reflexivity. Qed.
 Example demo_filter :
   load_filtered [1; 2] [TAtom 1 CGt 0; TAtom 9 CEq 5 (* absent column: dropped *); TOr (TAtom 2 CEq 7) (TAtom 2 CEq 8)]
@@ -173,6 +211,7 @@ Proof. vm_compute. reflexivity. Qed.
 
 Print Assumptions C19_inv.
 Print Assumptions C19_refines_map.
+Print Assumptions C19_filters_never_reach_the_file.
 Print Assumptions C19_keys_loadable_reopen.
 Print Assumptions C19_load_last_written.
 Print Assumptions C19_rejected_unchanged.
